@@ -290,7 +290,7 @@ func driveC15(c *driverCtx) error {
 	}
 	feat := featuresFromKnown("C15")
 	feat.PtrPtr, feat.PtrNullWrapper = true, true
-	for i := 0; i < c.pick(250, 5000); i++ {
+	for i := 0; i < c.pick(250, 60000); i++ {
 		t, tags := genType(c.rng, feat)
 		cls := "gen"
 		if i%3 == 0 {
